@@ -49,7 +49,7 @@ func drawHostileInt(t *rapid.T, label string) []byte {
 // hostile text fragments for the textual formats (SQL, YAML, log lines, bytea escapes).
 var hostileText = []string{
 	"", "'", "''", "\"", "\"\"", "`", "\\", "\\\\", "\\x", "\\x0", "\\xZZ", "\\1", "\\12", "\\123", "\\400", "\\777", "\\8", "\\\n",
-	"/*", "*/", "/*!", "/*!50000 ", "--", "-- ", "#", ";", ";;", "$", "$1", "$$", "$a$", "$0", "$99999999999999999999", ":", ":v1", "::", ":=", "?", "@", "@@", "%", "%%", "%%VALUE%%", "%%WHERE%%",
+	"/*", "*/", "/*!", "/*!50000 ", "/*!*/", "/*!0*/", "/*!12345*/", "/*!123456*/", "/*! */", "/**/", "/*!40101 select 1 */", "--", "-- ", "#", ";", ";;", "$", "$1", "$$", "$a$", "$0", "$99999999999999999999", ":", ":v1", "::", ":=", "?", "@", "@@", "%", "%%", "%%VALUE%%", "%%WHERE%%",
 	"E'", "E'\\", "e'\\'", "X'", "x'0", "x'zz'", "0x", "0xZ", "b'", "B'2'", "N'", "_utf8'", "U&'",
 	"(", ")", "((((((((((((((((((((((((((((((((", "))))", "[", "]", "{", "}", ",", ".", "..", "...", "*", "=", "<=>", "->>", "||", "&&", "!", "~",
 	"0", "-0", "1e", "1e999", "1e-999", ".e1", "99999999999999999999999999999999", "-9223372036854775808", "9223372036854775808", "0.0000000000000000000000000000000000001", "1.7976931348623157e309",
@@ -245,12 +245,15 @@ func hostileSeeds(tg *target) [][]byte {
 		return out
 	}
 	pres := [][]byte{nil}
-	for _, m := range tg.magic {
-		pres = append(pres, []byte{m})
+	for i, m := range tg.magic {
+		if i < 4 {
+			pres = append(pres, []byte{m})
+		}
 	}
 	for _, pre := range pres {
-		for _, v := range []uint64{0, 1, 3, 4, 0x7f, 0xff, 0xffff, 0x7fffffff, 0xffffffff, 0x7fffffffffffffff, 0xffffffffffffffff, 0xfffffffffffffff7} {
-			for _, w := range []int{1, 2, 4, 8} {
+		for _, v := range []uint64{0, 1, 3, 0xff, 0x7fffffff, 0xffffffff, 0x7fffffffffffffff, 0xffffffffffffffff} {
+			out = append(out, append(append([]byte(nil), pre...), putInt(1, false, v)...))
+			for _, w := range []int{4, 8} {
 				for _, be := range []bool{false, true} {
 					out = append(out, append(append([]byte(nil), pre...), putInt(w, be, v)...))
 				}
